@@ -1848,7 +1848,10 @@ impl Db {
 		let db = Db::open(options)?;
 		let salt = db.inner.options.salt;
 		let version = db.inner.db_version;
-		drop(db);
+		// The caller goes on to delete files or to rewrite the metadata: the session (replay, a
+		// reindex that was under way) must have ended well, a log left behind would be replayed over
+		// what the caller does.
+		db.close()?;
 		Ok((salt.expect("`salt` is always `Some` after opening the DB; qed"), version))
 	}
 
